@@ -267,3 +267,36 @@ pub fn candle(t: &mut Toks) -> Vec<i128> {
 		other => panic!("unknown candle op {other}"),
 	}
 }
+
+
+/// IndicatorResult::new with nv values and ns signals (any counts): announced lengths, slice lengths, contents
+pub fn iresult(t: &mut Toks) -> Vec<i128> {
+	use yata::core::{Action, IndicatorResult};
+	let nv = t.next_usize();
+	let ns = t.next_usize();
+	let vals: Vec<ValueType> = (0..nv).map(|i| (i as ValueType) * 0.5 + 1.0).collect();
+	let sigs: Vec<Action> = (0..ns).map(|i| Action::from((i as i8) * 2 - 3)).collect();
+	let mut out = Vec::new();
+	match catch(|| IndicatorResult::new(&vals, &sigs)) {
+		None => out.push(T_PANIC),
+		Some(r) => {
+			out.push(0);
+			out.push(r.values_length() as i128);
+			out.push(r.signals_length() as i128);
+			out.push(r.size().0 as i128);
+			out.push(r.size().1 as i128);
+			match catch(|| (r.values().to_vec(), r.signals().to_vec())) {
+				None => out.push(T_PANIC),
+				Some((v, sg)) => {
+					out.push(v.len() as i128);
+					out.push(sg.len() as i128);
+					// contents are the leading inputs
+					let okv = v.iter().zip(vals.iter()).all(|(a, b)| a.to_bits() == b.to_bits());
+					let oks = sg.iter().zip(sigs.iter()).all(|(a, b)| a == b);
+					out.push((okv && oks) as i128);
+				}
+			}
+		}
+	}
+	out
+}
